@@ -105,6 +105,15 @@ def gen_history(rng, n, classes=None, pool_size=6, same_plain9=True, nsalts=2, s
         pool.append((p, "text"))                                            # ... and the clear text itself
     if odd_names:
         pool.append(("netconanRemoved%d" % rng.randint(0, 3), "text"))      # a secret that looks like a pseudonym
+        if classes is None or "hex" in classes:
+            hx = "".join(rng.choice("abcdef") for _ in range(4)) + "%04d" % rng.randint(0, 9999)   # distinct secrets equal up to letter case
+            pool += [(hx, "hex"), (hx.upper(), "hex"), (hx.capitalize(), "hex")]
+        pool.append((rng.choice(["Cisco", "Private", "Monitor", "SYSTEM", "Interface", "Password"]), "text"))   # a reserved keyword in other case is a secret
+        if same_plain9 and (classes is None or "jun9" in classes):
+            from .jun_checks import ref_encrypt
+            lp = "".join(rng.choice("ghijkmnopqrstuvwxyz0123456789") for _ in range(rng.choice([90, 120, 200])))
+            for k in range(3):                                              # long secrets (e.g. IKE keys) under several salts
+                pool.append((ref_encrypt(lp, ALPHA[(salt0 + 7 * k + 1) % 65]), "jun9"))
     forms_by_class = {}
     for t, cs in L.FORMS:
         for c in cs:
@@ -163,8 +172,9 @@ def c07_scope(res, pid, rng, tier):
     fails = []
     rounds = 60 if tier == "thorough" else 14
     for r in range(rounds):
-        cfg = fa.FaCfg(salt=SALTS[(r + 2 * res.seed) % len(SALTS)], pwd=True)
-        hist = gen_history(rng, 30, same_plain9=False)
+        cfg = fa.FaCfg(salt=SALTS[(r + 2 * res.seed) % len(SALTS)], pwd=True, undo=(r % 5 == 4))     # (-p together with -u as well)
+        hist = gen_history(rng, 30, same_plain9=False, odd_names=(r % 2 == 1))
+        hist = [h for h in hist if not h[2].startswith("netconanRemoved")]
         # second assignment with the same equality pattern
         ren = {}
         for t, w, s, c in hist:
@@ -200,6 +210,8 @@ def c07_scope(res, pid, rng, tier):
             s = secrets1[i]
             if s is not None:
                 rep = extract(a, hist[i][0], hist[i][1])
+                if rep is None and cfg.undo and re.search(r"\d+\.\d+\.\d+\.\d+|::", hist[i][0]):
+                    rep = "<address in the template rewritten by the undo stage>"
                 if rep is None or rep == s:
                     fails.append({"kind": "the secret's position does not hold a pseudonym", "salt": cfg.salt,
                                   "line": lines1[i], "output": a})
@@ -277,6 +289,60 @@ def c08_scope(res, pid, rng, tier):
     return [], fails
 
 
+def c08_dir_scope(res, pid, rng, tier):
+    """one run over several files, one of which cannot be processed: replacements stay consistent and collision-free across
+    all files of the run"""
+    import os
+    import shutil
+    import tempfile
+    from netconan.anonymize_files import anonymize_files
+    fails = []
+    for r in range(2 if tier == "quick" else 6):
+        hist = gen_history(rng, 30, classes=["text", "hex", "type7", "numeric"], pool_size=8)
+        lines = [render(h) for h in hist]
+        d = tempfile.mkdtemp(prefix="ncverif_")
+        try:
+            ind, outd = os.path.join(d, "in"), os.path.join(d, "out")
+            parts = {"a.cfg": (0, 10), "m/c.cfg": (10, 20), "z.cfg": (20, 30)}
+            for rel, (a, b) in parts.items():
+                os.makedirs(os.path.dirname(os.path.join(ind, rel)), exist_ok=True)
+                open(os.path.join(ind, rel), "w").write("".join(lines[a:b]))
+            open(os.path.join(ind, "b-bad.bin"), "wb").write(b"\xff\xfe\x00 \xc3\x28 not text")
+            os.makedirs(os.path.join(ind, "m", "k-dir.cfg"), exist_ok=True)
+            os.makedirs(os.path.join(outd, "m", "f-occupied.cfg"))
+            open(os.path.join(ind, "m", "f-occupied.cfg"), "w").write("password blockedsecret1\n")
+            with fa.LogCap():
+                anonymize_files(ind, outd, True, False, salt=SALTS[(r + res.seed) % len(SALTS)])
+            order = []
+            for root_, _, fs in os.walk(ind):
+                for f in fs:
+                    order.append(os.path.relpath(os.path.join(root_, f), ind))
+            seen, used = {}, {}
+            for rel in order:
+                if rel not in parts or not os.path.isfile(os.path.join(outd, rel)):
+                    continue
+                a, b = parts[rel]
+                outs = open(os.path.join(outd, rel)).read().split("\n")
+                for (t, w, s, c), out in zip(hist[a:b], outs):
+                    res.evaluations += 1
+                    rep = extract(out + "\n", t, w)
+                    idx = pseudonym_index(rep, 60) if rep is not None else None
+                    if idx is None:
+                        fails.append({"kind": "replacement not found / not decodable in a multi-file run", "file": rel, "line": render((t, w, s, c)), "output": out})
+                        continue
+                    if s in seen and seen[s] != idx:
+                        fails.append({"kind": "equal secrets received different replacements within one run (a file failed in between)",
+                                      "secret": s, "file": rel, "output": out, "index_now": idx, "index_before": seen[s]})
+                    if idx in used and used[idx] != s:
+                        fails.append({"kind": "different secrets received the same replacement within one run (a file failed in between)",
+                                      "secret": s, "other_secret": used[idx], "file": rel, "output": out, "index": idx})
+                    seen[s] = idx
+                    used[idx] = s
+        finally:
+            shutil.rmtree(d, ignore_errors=True)
+    return [], fails
+
+
 # ------------------------------------------------------------------ C09
 
 def c09_scope(res, pid, rng, tier):
@@ -296,6 +362,35 @@ def c09_scope(res, pid, rng, tier):
             hist.append(('secret "{}"', "{}", ref_encrypt("plain" + ch, ch), "jun9"))
         rng.shuffle(hist)
         lines = [render(h) for h in hist]
+        # (i) the secret's text also occurs elsewhere on the line as ordinary text: only the secret's position may change
+        extra = []
+        for f_ in ["set community {}", "rf-switch snmp-community {}", 'set system license keys key "{}"', "key-hash sha256 {}",
+                   "snmp-server mib community-map {}:100 context public1"]:
+            s_ = L.gen_secret(rng, "text")
+            s_ = re.sub(r"[^A-Za-z0-9]", "x", s_)
+            ln = "description %s-mgmt link %s" % (s_, f_.format(s_))
+            extra.append((ln + "\n", "description %s-mgmt link " % s_, f_, s_))
+        # (ii) an unquoted secret directly followed by a terminator and more text
+        for cls_, f_ in (("type7", " password 7 {}"), ("text", "username bob password {}"), ("hex", "key hexadecimal {}"), ("numeric", "set password {}"),
+                         ("md5", "enable secret 5 {}"), ("jun9", "secret {}")):
+            s_ = L.gen_secret(rng, cls_)
+            for term, tail_ in ((",", " privilege 15"), (";", " ## SECRET-DATA"), ("]", " extra"), ("}", " more")):
+                extra.append((f_.format(s_) + term + tail_ + "\n", "", f_.replace("{}", "{}" + term + tail_), s_))
+        try:
+            cfg_ = fa.FaCfg(salt=cfg.salt, pwd=True, undo=(r % 4 == 3))      # (also with --undo: secrets are still anonymized)
+            xouts, _ = run_lines(cfg_, [e[0] for e in extra])
+        except Exception as e:  # noqa
+            fails.append({"kind": "anonymize_io raised", "exc": repr(e), "salt": cfg.salt})
+            xouts = []
+        for (ln, pre_, f_, s_), out in zip(extra, xouts):
+            res.evaluations += 1
+            rep = extract(out[len(pre_):] if out.startswith(pre_) else "\0", f_, "{}")
+            if rep is None or rep == s_:
+                fails.append({"kind": "text around the secret (other occurrences of the same text, terminators, words after it) not kept in place, or the secret not replaced",
+                              "salt": cfg.salt, "undo": cfg_.undo, "line": ln, "output": out})
+            elif spec_class(rep) != spec_class(s_):
+                fails.append({"kind": "replacement does not have the original's format", "salt": cfg.salt, "line": ln, "output": out,
+                              "original_class": spec_class(s_), "replacement_class": spec_class(rep)})
         try:
             outs, _ = run_lines(cfg, lines)
         except Exception as e:  # noqa
